@@ -16,7 +16,8 @@
 import json, os
 from common import *
 
-CH = {"dq": '"', "sp": " ", "eacute": "é"}
+CH = {"dq": '"', "sp": " ", "eacute": "é", "eszett": "ß", "ntilde": "ñ", "Eacute": "É", "sub2": "₂", "sup2": "²", "arabic1": "١", "circled1": "①"}
+UNI_IDS = "co₂,x²,a١,a①,_₂a,a1²,ß,aß,ña,añ,É,aÉ,₂,t,T x"
 ALPHABET = 'aA1_." é'
 KNOWN_EMPTY = "empty-identifier-part"
 
@@ -102,7 +103,7 @@ def run(ctx):
     native = "T:2:3,T:3:1,C:2:2,C:4:1,S:2:2" if ctx.quick else "T:1:5,T:2:3,T:3:2,C:2:3,C:3:2,S:2:3"
     summary, _ = run_harness(ctx, "vtext", ["c52", "--in", ctx.path("cases.ndjson"), "--out", ctx.path("out.ndjson"),
                                             "--native", native, "--alphabet", ALPHABET, "--with-empty",
-                                            "--sql-every", 53 if ctx.quick else 7, "--keywords",
+                                            "--sql-every", 53 if ctx.quick else 7, "--keywords", "--native-ids", UNI_IDS,
                                             "--random", 12000 if ctx.quick else 400000], timeout=3000)
     REQUIRED = ["TableReference::parse_str(to_quoted_string)", "TableReference::parse_str_normalized(ignore_case)",
                 "TableReference::parse_str_normalized(Display, ignore_case) [all parts words]", "TableReference::parse_str(Display) [all parts bare]",
@@ -115,6 +116,10 @@ def run(ctx):
     never = [p_ for p_ in REQUIRED if not summary["path_checks"].get(p_)]
     if never:
         raise ToolError(f"vacuity: paths never exercised: {never}")
+    if not (summary.get("native_ids") or {}).get("references"):
+        raise ToolError("vacuity: the non-ASCII digit/letter identifiers were not enumerated")
+    if not any(c["src"] == "extra" and any("sub2" in x or "eszett" in x for x in c["p"]) and len(c["p"]) >= 2 for c in cases):
+        raise ToolError("vacuity: TLC emitted no multi-part reference with a non-ASCII digit/letter part")
     if not (summary.get("random") or {}).get("identifiers_of_256_or_more_chars"):
         raise ToolError("vacuity: no very long identifier was generated")
     out = read_ndjson(ctx.path("out.ndjson"))
@@ -157,6 +162,7 @@ def run(ctx):
         "emitted_case_shapes": shape_tot,
         "native_scope": summary["native"],
         "keyword_sweep": summary.get("keywords"),
+        "non_ascii_digit_and_letter_identifiers": summary.get("native_ids"),
         "random_wide_alphabet": summary.get("random"),
         "path_checks": summary["path_checks"],
         "round_trip_failures": summary["n_failures"],
